@@ -69,50 +69,82 @@ CtxFalsy(full) ==
   IN {MkDict(One("a", x) @@ One("b", y)) : x \in a, y \in b}
 CtxSeq == SetToSeq(CASE CtxU = "tiny" -> CtxTiny [] CtxU = "few" -> CtxFew \cup CtxTiny
                      [] CtxU = "mid" -> CtxSet(FALSE) [] CtxU = "full" -> CtxSet(TRUE)
-                     [] CtxU = "falsyq" -> CtxFalsy(FALSE) [] CtxU = "falsy" -> CtxFalsy(TRUE))
+                     [] CtxU = "falsyq" -> CtxFalsy(FALSE) [] CtxU = "falsy" -> CtxFalsy(TRUE)
+                     [] CtxU = "ops3" -> {Empty, Dict(One("a", L1)), Dict(One("a", LNone))}
+                     [] CtxU = "ops4" -> {Empty, Dict(One("a", L1)), Dict(One("a", LNone)), Dict(One("a", Dict(One("b", L1))))})
 NC == Len(CtxSeq)
 
 (***************************************************************************)
-(* The machine: GroupBy(G, M); fill(value) ...; values are identified by   *)
-(* their position in the flow, flow[i] is the index of the value's context *)
-(* in CtxSeq.                                                              *)
+(* The machine: GroupBy(G, M) used as an object with state: fill(value),   *)
+(* compute() (yields the groups as they are, filling goes on afterwards)   *)
+(* and reset() (removes all groups) in any order.  A flow item is the      *)
+(* index of the value's context in CtxSeq, or 0 = compute(), -1 = reset(); *)
+(* values are identified by their position in the flow.  The operations    *)
+(* are part of the flows only in the universes "ops3" / "ops4".            *)
 (***************************************************************************)
 VARIABLES G, M, flow, pos,
-          groups     \* sequence of [key |-> selected sub-context, vals |-> positions], in order of creation
-vars == <<G, M, flow, pos, groups>>
+          groups,    \* sequence of [key |-> selected sub-context, vals |-> positions], in order of creation
+          base,      \* position of the last reset() (0: none)
+          snaps      \* what the compute() calls yielded: [at, base, groups]
+vars == <<G, M, flow, pos, groups, base, snaps>>
 
+Items == (1..NC) \cup (IF CtxU \in {"ops3", "ops4"} THEN {0, -1} ELSE {})
 Init == /\ \E gm \in GMs : G = gm[1] /\ M = gm[2]
-        /\ flow \in UNION {[1..n -> 1..NC] : n \in 0..MaxFlow}
-        /\ pos = 0 /\ groups = <<>>
+        /\ flow \in UNION {[1..n -> Items] : n \in 0..MaxFlow}
+        /\ pos = 0 /\ groups = <<>> /\ base = 0 /\ snaps = <<>>
+IsVal(i) == flow[i] > 0
 KeyOf(i) == Proj(CtxSeq[flow[i]], G, M)
 \* groups[key].append(val)
-FillOld == /\ pos < Len(flow)
+FillOld == /\ pos < Len(flow) /\ IsVal(pos + 1)
            /\ \E g \in 1..Len(groups) :
                 /\ groups[g].key = KeyOf(pos + 1)
                 /\ groups' = [groups EXCEPT ![g].vals = Append(@, pos + 1)]
-           /\ pos' = pos + 1 /\ UNCHANGED <<G, M, flow>>
+           /\ pos' = pos + 1 /\ UNCHANGED <<G, M, flow, base, snaps>>
 \* groups[key] = [val]
-FillNew == /\ pos < Len(flow)
+FillNew == /\ pos < Len(flow) /\ IsVal(pos + 1)
            /\ \A g \in 1..Len(groups) : groups[g].key # KeyOf(pos + 1)
            /\ groups' = Append(groups, [key |-> KeyOf(pos + 1), vals |-> <<pos + 1>>])
-           /\ pos' = pos + 1 /\ UNCHANGED <<G, M, flow>>
-Next == FillOld \/ FillNew
+           /\ pos' = pos + 1 /\ UNCHANGED <<G, M, flow, base, snaps>>
+\* compute(): the groups as they are now; nothing is forgotten
+Compute == /\ pos < Len(flow) /\ flow[pos + 1] = 0
+           /\ snaps' = Append(snaps, [at |-> pos, base |-> base, groups |-> [g \in 1..Len(groups) |-> groups[g].vals]])
+           /\ pos' = pos + 1 /\ UNCHANGED <<G, M, flow, groups, base>>
+\* reset(): all groups are removed
+Reset == /\ pos < Len(flow) /\ flow[pos + 1] = -1
+         /\ groups' = <<>> /\ base' = pos + 1
+         /\ pos' = pos + 1 /\ UNCHANGED <<G, M, flow, snaps>>
+Next == FillOld \/ FillNew \/ Compute \/ Reset
 Spec == Init /\ [][Next]_vars
 Done == pos = Len(flow)
 
 (***************************************************************************)
 (* Properties.                                                             *)
 (***************************************************************************)
+\* the values filled since the last reset()
+Live(lo, hi) == {i \in (lo + 1)..hi : IsVal(i)}
 GroupOf(i) == CHOOSE g \in 1..Len(groups) : \E j \in 1..Len(groups[g].vals) : groups[g].vals[j] = i
-\* the groups are a partition of the filled values
-IsPartition == \A i \in 1..pos : Cardinality({g \in 1..Len(groups) : \E j \in 1..Len(groups[g].vals) : groups[g].vals[j] = i}) = 1
+\* the groups are a partition of the values filled since the last reset()
+IsPartition == /\ \A i \in Live(base, pos) : Cardinality({g \in 1..Len(groups) : \E j \in 1..Len(groups[g].vals) : groups[g].vals[j] = i}) = 1
+               /\ \A g \in 1..Len(groups) : \A j \in 1..Len(groups[g].vals) : groups[g].vals[j] \in Live(base, pos)
 \* C15: same group exactly when the contexts agree on every selected path
 \* (checked for the value filled last against all earlier ones; earlier pairs were checked in the
-\* predecessor states, and FillOld / FillNew never move a value)
-PartitionExact == \A i \in 1..pos :
-                    (GroupOf(i) = GroupOf(pos)) <=> SameGroup(CtxSeq[flow[i]], CtxSeq[flow[pos]], G, M)
-Stable == [][\A g \in 1..Len(groups) : /\ groups'[g].key = groups[g].key
-                                        /\ SubSeq(groups'[g].vals, 1, Len(groups[g].vals)) = groups[g].vals]_vars
+\* predecessor states, and the actions never move a value)
+PartitionExact == (pos > 0 /\ IsVal(pos)) =>
+                    \A i \in Live(base, pos) :
+                      (GroupOf(i) = GroupOf(pos)) <=> SameGroup(CtxSeq[flow[i]], CtxSeq[flow[pos]], G, M)
+\* fill and compute() never move or drop a value; only reset() empties the groups
+Stable == [][(groups' # <<>> \/ groups = <<>>) =>
+               \A g \in 1..Len(groups) : /\ groups'[g].key = groups[g].key
+                                          /\ SubSeq(groups'[g].vals, 1, Len(groups[g].vals)) = groups[g].vals]_vars
+\* what compute() yielded: the partition, by SameGroup, of the values filled between the last reset()
+\* and that call - every one of them, in arrival order
+SnapshotsRight == \A k \in 1..Len(snaps) :
+  LET sn == snaps[k]  live == Live(sn.base, sn.at) IN
+  /\ UNION {{sn.groups[g][j] : j \in 1..Len(sn.groups[g])} : g \in 1..Len(sn.groups)} = live
+  /\ \A g \in 1..Len(sn.groups) : \A j \in 1..(Len(sn.groups[g]) - 1) : sn.groups[g][j] < sn.groups[g][j + 1]
+  /\ \A g, g2 \in 1..Len(sn.groups) : \A x \in 1..Len(sn.groups[g]) : \A y \in 1..Len(sn.groups[g2]) :
+        (g = g2) <=> SameGroup(CtxSeq[flow[sn.groups[g][x]]], CtxSeq[flow[sn.groups[g2][y]]], G, M)
+ResetEmpties == [][(pos < Len(flow) /\ flow[pos + 1] = -1 /\ pos' = pos + 1) => groups' = <<>>]_vars
 \* arrival order is preserved inside a group (and groups appear in order of their first value)
 OrderPreserved == /\ \A g \in 1..Len(groups) : \A j \in 1..(Len(groups[g].vals) - 1) : groups[g].vals[j] < groups[g].vals[j + 1]
                   /\ \A g \in 1..(Len(groups) - 1) : groups[g].vals[1] < groups[g + 1].vals[1]
@@ -136,7 +168,7 @@ AllPaths == UNION {[1..n -> {"a", "b", "c"}] : n \in 1..3}
 OwnerIsLongest == AtStart => \A p \in AllPaths : Selected(p, G, M) <=> (Owner(p, G, M) \in G)
 \* default arguments: merge takes priority, everything in one group; whole context otherwise
 DefaultsOneGroup == (G = {} /\ M = {<<>>}) => Len(groups) <= 1
-WholeContext == (G = {<<>>} /\ M = {}) => \A i, j \in 1..pos : (GroupOf(i) = GroupOf(j)) <=> flow[i] = flow[j]
+WholeContext == (G = {<<>>} /\ M = {}) => \A i, j \in Live(base, pos) : (GroupOf(i) = GroupOf(j)) <=> flow[i] = flow[j]
 \* the selected part is a sub-context: nothing is invented
 ProjPart(i) == \A p \in Paths(Proj(CtxSeq[i], G, M)) : At(Proj(CtxSeq[i], G, M), p) = At(CtxSeq[i], p)
 ProjIsPart == AtStart => \A i \in 1..NC : ProjPart(i)
@@ -144,8 +176,8 @@ ProjIsPart == AtStart => \A i \in 1..NC : ProjPart(i)
 \* The same relation checks over a large universe of contexts, one context per state so that
 \* TLC's workers share them: pos walks through the universe.
 RInit == /\ \E gm \in GMs : G = gm[1] /\ M = gm[2]
-         /\ flow = <<>> /\ pos = 0 /\ groups = <<>>
-RNext == pos < NC /\ pos' = pos + 1 /\ UNCHANGED <<G, M, flow, groups>>
+         /\ flow = <<>> /\ pos = 0 /\ groups = <<>> /\ base = 0 /\ snaps = <<>>
+RNext == pos < NC /\ pos' = pos + 1 /\ UNCHANGED <<G, M, flow, groups, base, snaps>>
 RSpec == RInit /\ [][RNext]_vars
 KeyCharStep == pos > 0 => KeyChar(pos)
 ProjPartStep == pos > 0 => ProjPart(pos)
@@ -157,7 +189,7 @@ OwnerStep == pos = 0 => \A p \in AllPaths : Selected(p, G, M) <=> (Owner(p, G, M
 PathSeq(S) == SetToSeq(S)
 \* the class of every context of the universe (index of a representative of the class), by Sig
 XInit == /\ \E gm \in GMs : G = gm[1] /\ M = gm[2]
-         /\ flow = <<>> /\ pos = 0 /\ groups = <<>>
+         /\ flow = <<>> /\ pos = 0 /\ groups = <<>> /\ base = 0 /\ snaps = <<>>
 XSpec == XInit /\ [][FALSE]_vars
 \* (the universe of contexts itself is attached to the record of one pair)
 FirstGM == CHOOSE gm \in GMs : TRUE
@@ -167,6 +199,8 @@ EmitClasses ==
                  ctxs |-> IF <<G, M>> = FirstGM THEN CtxSeq ELSE <<>>]))
 \* behaviours of the machine
 EmitFlow == Done => PrintT(ToJson([G |-> PathSeq(G), M |-> PathSeq(M),
-                                   flow |-> [i \in 1..Len(flow) |-> CtxSeq[flow[i]]],
+                                   flow |-> [i \in 1..Len(flow) |-> IF IsVal(i) THEN [op |-> "fill", c |-> CtxSeq[flow[i]]]
+                                                                     ELSE [op |-> IF flow[i] = 0 THEN "compute" ELSE "reset", c |-> Empty]],
+                                   snaps |-> [k \in 1..Len(snaps) |-> snaps[k].groups],
                                    groups |-> [g \in 1..Len(groups) |-> groups[g].vals]]))
 =============================================================================
